@@ -34,7 +34,8 @@ for n in names:
         uncaught.append(n)
     elif r["property"] not in cb:
         owner_miss.append((n, cb))
-    lines.append("| %s | %s | %s | %s |" % (n, r["property"], "yes" if r["property"] in cb else "**no**", " ".join(cb) or "—"))
+    own = "yes" if r["property"] in cb else ("inconclusive (exit 2: the monitor process itself was taken down, e.g. by the undefined behaviour it executed)" if r.get("owner_check_rc") == 2 else "**no**")
+    lines.append("| %s | %s | %s | %s |" % (n, r["property"], own, " ".join(cb) or "—"))
 with open("/verif/seeded/AUDIT.md", "w") as o:
     o.write("# Detection matrix of the seeded changes (bin/mutation_audit.sh, quick tier)\n\n")
     o.write("Each change was applied to a scratch copy of /repo inside a private mount namespace; the owning\n"
